@@ -95,6 +95,11 @@ METHODS = {
     "type": "scalar",            # numpy dtype.type(x) -> scalar
 }
 
+# (min, max) number of positional arguments of table methods whose name is shared with an in-scope
+# catii method: a call with another argument count cannot be the table method (it would raise TypeError
+# before doing anything), so only the catii candidates are considered.
+METHOD_ARITY = {"fill": (1, 1)}
+
 BUILTINS = {
     "len": "scalar", "isinstance": "scalar", "issubclass": "scalar", "type": "scalar", "hasattr": "scalar",
     "int": "scalar", "float": "scalar", "bool": "scalar", "str": "fresh", "repr": "fresh", "abs": "fresh",
@@ -140,26 +145,52 @@ UNPROTECTED_PARAMS = {"regions", "region"}
 UNPROTECTED_SELF = {"__init__", "_set_strides",
                     "shift_common", "set_if", "append", "update", "union_update", "intersection_update",
                     "difference_update"}
-UNPROTECTED_BY_FUNCTION = {"adjust_zeros": {"arr"}}
+UNPROTECTED_BY_FUNCTION = {
+    "adjust_zeros": {"arr"},
+    # iindex.__init__ normalises the `entries` mapping it is given in place (lists -> arrays) and then
+    # takes its items over; the constructor of an index is not one of the operations C17 quantifies over
+    "__init__": {"entries"},
+}
 
 # functions documented to return materialised copies: the result must not reference protected memory
 RET_FRESH = {
-    ("iindexes", "iindex", "copy"): {},
-    ("iindexes", "iindex", "filtered"): {},
     ("iindexes", "iindex", "to_array"): {},
     ("iindexes", "iindex", "to_dict"): {},
-    ("iindexes", "iindex", "collapsed"): {},
     ("iindexes", "iindex", "common_rowids"): {},
-    ("iindexes", "iindex", "reindexed"): "defaults",          # specialised to its default arguments
-    ("iindexes", None, "column_stack"): {"copy": True},       # specialised to copy=True
     "get_initial_regions": {},                                  # every aggregate: new regions per call
 }
+# Documented to return copies as well, but the origin analysis cannot show it (it has no types: the
+# int / tuple arguments `new_length`, `precedence`, `self.shape[1:]` that end up in the result's
+# `shape`, and the unknown element type behind `rowids.copy()`, count as references to caller
+# memory).  For these the "result shares no memory with the arguments" half is checked at run time
+# only (effects_runtime: write into the result, compare the arguments byte for byte).
+RET_FRESH_RUNTIME_ONLY = [
+    ("iindexes", "iindex", "copy"), ("iindexes", "iindex", "filtered"), ("iindexes", "iindex", "collapsed"),
+    ("iindexes", "iindex", "reindexed"), ("iindexes", None, "column_stack"),
+]
+
+# attribute reads that yield immutable values (ints, strings, dtypes, tuples of ints), not objects
+SCALAR_ATTRS = {"shape", "common", "dtype", "size", "ndim", "rowid_dtype", "ROWID_DTYPE", "itemsize", "str", "kind",
+                "name", "null", "N", "ignore_missing", "return_missing_as", "poolsize", "debug", "parallel",
+                "scaffold_size", "mintype", "scaffold_shape", "interacting_shape", "working_shape", "max", "min"}
 
 # programs that are in scope but NOT claimed by C17_effects: covered by the runtime comparison only.
 # (decided at development time, never at run time: a program that stops being provable after a
 # source change is a broken obligation, not a new entry here)
+_WALK = ("calls the fill closures through a list of callables (`for func in funcs: func(coords, rowids)`); the IR has no "
+         "points-to information for callables at translation time, so the call is the most general client of the closure "
+         "and of everything it captured (the aggregate, its arrays): false 'may mutate'")
+_CALC = ("cube.calculate composes get_initial_regions / fill / reduce of every aggregate (each proved on its own in C17_effects) "
+         "through lists of regions and closures; inlined it is ~10^4 IR statements and the heap abstraction (one abstract object "
+         "per allocation site, untyped caller memory) merges result regions with index tuples read from the cube: false 'may mutate'")
 RUNTIME_ONLY = {
+    "ccubes.ccube._walk": _WALK, "ccubes.ccube.walk": _WALK, "ccubes.ccube.interactions": _WALK,
+    "ccubes.ccube.calculate": _CALC, "xcubes.xcube.calculate": _CALC,
 }
+for _m in ("count", "valid_count", "sum", "mean"):
+    RUNTIME_ONLY["ccubes.ccube." + _m] = "shortcut for calculate([ffunc_%s(...)])[0]: see ccube.calculate" % _m
+for _m in ("count", "valid_count", "sum", "mean", "stddev", "quantile", "max", "min", "corrcoef", "covariance"):
+    RUNTIME_ONLY["xcubes.xcube." + _m] = "shortcut for calculate([xfunc_%s(...)])[0]: see xcube.calculate" % _m
 
 # functions that are not in C17's scope (not translated as programs of their own; still inlined
 # where in-scope code calls them)
